@@ -10,7 +10,7 @@ from asyncssh.misc import DisconnectError, ProtocolError
 from asyncssh.packet import SSHPacket, PacketDecodeError, UInt32, String, Byte, Boolean, MPInt
 
 from vf.core import Ob, R, B, By
-from vf.rt import Fuel, assume, pick, conc, notrace
+from vf.rt import Fuel, assume, pick, conc, notrace, cb
 from vf.stubs import mkconn, MiniLoop, AsyncioShim, NullLogger
 from props.chanlib import RecSession, split_sent
 from props.connlib import frame, instrument, deliver
@@ -391,6 +391,53 @@ def text_parsers(which: int, n: int, i0: int, i1: int, i2: int, i3: int) -> bool
     return True
 
 
+def banner_limits(server: bool, nlines: int, linelen: int, verlen: int, nl: bool) -> bool:
+    """Pre-version input: any number of banner lines, any line length, any
+    version length, newline present or not - handling one chunk takes at most
+    one handler step per line, the documented limits (8192-byte lines, 1024
+    banner lines, 255-byte version) end the connection once, a server accepts
+    no banner, and nothing raises."""
+    n = pick([0, 1, 3, 1023, 1024, 1025, 1030], nlines)
+    ll = pick([0, 1, 80, 8190, 8191, 8192, 9000], linelen)
+    vl = pick([0, 1, 200, 246, 247, 248, 300], verlen)
+    nl = cb(nl)
+    with notrace():
+        conn = mkconn(server)
+        out = instrument(conn)
+        conn._send = lambda data: None
+        started = []
+        conn._send_kexinit = lambda: started.append(1)
+        steps = []
+        orig = conn._recv_version
+
+        def counted():
+            steps.append(1)
+            if len(steps) > n + 4:
+                raise Fuel()
+            return orig()
+
+        conn._recv_handler = counted
+        data = (b'x' * ll + b'\r\n') * n + b'SSH-2.0-' + b'v' * vl + (b'\r\n' if nl else b'')
+        try:
+            deliver(conn, data)
+        except Fuel:
+            return False
+    if out.internal or len(out.closed) > 1:
+        return False
+    too_long_line = n > 0 and ll + 1 >= 8192
+    if server and n > 0:
+        # a server accepts no banner before the version: first line is not a version -> closed
+        return len(out.closed) == 1 and not started
+    if too_long_line or n > 1024:
+        return len(out.closed) == 1 and not started
+    if not nl:
+        # incomplete version line: wait for more unless it is already too long
+        return not started and (len(out.closed) == 1) == (8 + vl >= 8192)
+    if 8 + vl > 255:
+        return len(out.closed) == 1
+    return not out.closed and started == [1]
+
+
 def rsa_blob(e: int, n: int) -> bool:
     """A well-framed ssh-rsa public key blob with arbitrary small parameters is
     a key or KeyImportError - nothing else (one bad line must not abort a whole
@@ -475,6 +522,10 @@ OBLIGATIONS = [
        thorough_shards=dict(which=[0, 1], n=[1, 2, 3, 4], i0=list(range(10))), timeout=150, thorough_timeout=600,
        functions=[PK._parse_rfc4716, PK._parse_pem],
        bounds='up to 3 (thorough 4) lines from a 10-line alphabet (continuations, headers, blank, base64, END marker, missing final newline)'),
+    Ob('banner_limits', banner_limits, sym=dict(nlines=R(0, 6), linelen=R(0, 6), verlen=R(0, 6), nl=B),
+       shards=dict(server=[True, False]), timeout=200,
+       functions=[C.SSHConnection._recv_version, C.SSHConnection._recv_data],
+       bounds='banner line count in {0,1,3,1023,1024,1025,1030} x line length in {0,1,80,8190,8191,8192,9000} x version payload length in {0,1,200,246,247,248,300} x newline present or not x role'),
     Ob('rsa_blob', rsa_blob, sym=dict(e=R(-2, 6), n=R(-2, 20)), timeout=120,
        functions=[PK.decode_ssh_public_key], bounds='ssh-rsa blob, e in -2..6, n in -2..20'),
     Ob('key_line', key_line, sym=dict(e=R(-2, 6), n=R(-2, 20)), timeout=120,
